@@ -101,7 +101,12 @@ type Lemma struct {
 	Line     int
 }
 
+type Guard struct {
+	Type, Field, Mutex, Prop, Pkg string
+}
+
 type SpecDB struct {
+	Guards      []*Guard
 	Funcs       map[string]*FuncSpec // by canonical name
 	SpecFuncs   map[string]*SpecFunc // by pkg-qualified and bare name
 	Ghosts      []*GhostField
@@ -112,7 +117,7 @@ type SpecDB struct {
 	Errors      []string
 }
 
-var clauseKW = map[string]bool{"typeinv": true, "functype": true, "func": true, "requires": true, "ensures": true, "modifies": true, "loop": true, "at": true,
+var clauseKW = map[string]bool{"guarded": true, "typeinv": true, "functype": true, "func": true, "requires": true, "ensures": true, "modifies": true, "loop": true, "at": true,
 	"pure": true, "trusted": true, "inline": true, "may-panic": true, "replay:": true, "spec": true, "ghost": true, "field": true,
 	"axiom": true, "lemma": true, "bytes:": true, "safety": true, "noverify": true, "inline-callee": true, "opaque-callee": true, "end": true, "prop": true, "package": true}
 
@@ -236,6 +241,16 @@ func (db *SpecDB) LoadFile(path, pkgPath string) error {
 			} else {
 				cur.Ensures = append(cur.Ensures, c)
 			}
+		case "guarded":
+			// guarded T.f by MutexField <prop>
+			if len(fields) == 5 && fields[2] == "by" {
+				tn := strings.SplitN(fields[1], ".", 2)
+				if len(tn) == 2 {
+					db.Guards = append(db.Guards, &Guard{Type: tn[0], Field: tn[1], Mutex: fields[3], Prop: fields[4], Pkg: pkgPath})
+					continue
+				}
+			}
+			db.errf(path, rc.line, "bad guarded clause")
 		case "typeinv":
 			if cur == nil {
 				db.errf(path, rc.line, "typeinv outside func")
